@@ -141,7 +141,6 @@ ANCHORS = [
     ('bothOk', '(n batchsize posTot : Int) : Bool', a_bothOk),
     ('sowerGetsExtra', '(batchCounter remainder : Int) : Bool', a_sowerGetsExtra),
     ('sowerFlush', '(counter batchsize : Int) (extraBatch : Bool) : Bool', a_sowerFlush),
-    ('reaperDefaultSize', '(batchsize i remainder : Int) : Int', a_reaperDefaultSize),
     ('isReady', '(numResults numSown : Int) : Bool', a_isReady),
     ('cleanUpDefault', '(cleanUpIsNone cleanUp allowIncomplete : Bool) : Bool', a_cleanUpDefault),
 ]
